@@ -261,15 +261,30 @@ def reinvest (s : St) (sym addr : String) (amt : Nat) : M St :=
                 { sym := sym, addr := addr, units := lu, lastUpdated := lp.lastUpdated })
   | _, _ => .ok s
 
-/-- reward amounts: ⌊ rnd18(u_i / U) · bucket ⌋ per eligible provider (address, amount) -/
+/-- the running clamp of fix F26: the amounts never add up to more than the bucket holds; a provider
+    whose rounded share exceeds what is left gets what is left -/
+def clampAmounts : Nat → List (String × Nat) → List (String × Nat)
+  | _, [] => []
+  | remaining, (a, x) :: rest =>
+    let y := if x > remaining then remaining else x
+    (a, y) :: clampAmounts (remaining - y) rest
+
+/-- one provider's unclamped amount: ⌊ rnd18(u / U) · bucket ⌋ -/
+def rewardAmountOf (units total bucket : Nat) : M Nat := do
+  let sh ← (Dec.ofNat units).quo (Dec.ofNat total)
+  let a ← sh.mulInt bucket
+  pure a.truncateInt.toNat
+
+/-- reward amounts per eligible provider (address, amount): `CalculateRewardShareForLiquidityProviders`
+    then `CalculateRewardAmountForLiquidityProviders` (with the clamp of fix F26) -/
 def rewardAmounts (lps : List (String × LP)) (bucket : Nat) : M (List (String × Nat)) := do
   let total := lps.foldl (fun a e => a + e.2.units) 0
   -- fix F16: no eligible provider holds a unit ⇒ every share is zero (the division would panic)
-  if total = 0 then pure (lps.map (fun e => (e.1, 0))) else
-  lps.mapM (fun e => do
-    let sh ← (Dec.ofNat e.2.units).quo (Dec.ofNat total)
-    let a ← sh.mulInt bucket
-    pure (e.1, a.truncateInt.toNat))
+  if total = 0 then pure (lps.map (fun e => (e.1, 0))) else do
+  let raw ← lps.mapM (fun e => do
+    let a ← rewardAmountOf e.2.units total bucket
+    pure (e.1, a))
+  pure (clampAmounts bucket raw)
 
 def payOne (sym : String) (s : St) (e : String × Nat) : M St :=
   if s.params.rewardsDistribute then pure (payToWallet s sym e.1 e.2) else reinvest s sym e.1 e.2
